@@ -29,6 +29,16 @@ CLASSES = [
 ]
 
 
+# numerically equal spellings for which the property does not promise ONE composition (leading zero, missing
+# fraction, exponent zero): either outcome is accepted, but every composition used must be written and carry the
+# right value
+EXTRA_PAIRS = [('-0.5', '-.5'), ('1', '1.0'), ('2.50e0', '2.5'), ('0.05', '.05'), ('-2.7', '-2.7e0'), ('-1.0', '-1'), ('-0.50', '-.5')]
+
+
+def _same_class(r1, r2):
+    return r1 == r2 or any(r1 in c and r2 in c for c in CLASSES)
+
+
 def make_spelling(task):
     sd, ncells = task
     rnd = random.Random(sd)
@@ -41,6 +51,14 @@ def make_spelling(task):
         rho = rnd.choice(c)
         mat = 1 if rho.startswith('-') else 2
         d.cells.append(dk.Cell(k, ('and', ('s', k), ('s', -(k + 1))), mat=mat, rho=rho, imp=1))
+    if rnd.random() < 0.5 and ncells >= 3:
+        # two cells of one material with such a pair of spellings (in either order)
+        pair = list(rnd.choice(EXTRA_PAIRS))
+        rnd.shuffle(pair)
+        i, j = rnd.sample(range(ncells - 1), 2)
+        for idx, rho in zip((i, j), pair):
+            d.cells[idx].rho = rho
+            d.cells[idx].mat = 1 if rho.startswith('-') else 2
     d.cells.append(dk.Cell(ncells, ('or', ('s', -1), ('s', ncells)), imp=0))
     return d, []
 
@@ -56,10 +74,21 @@ def spelling_problems(deck, t4):
         for a, b in itertools.combinations(cells, 2):
             same_val = dk.comp_key(a.mat, a.rho) == dk.comp_key(b.mat, b.rho)
             same_name = names.get(a.id) == names.get(b.id)
+            if same_val and not _same_class(a.rho, b.rho):
+                continue          # equal values in spellings outside the claim: one or two compositions
             if same_val != same_name:
                 pb.append('cells %d (%s) and %d (%s): same value %s, same composition %s' % (a.id, a.rho, b.id, b.rho, same_val, same_name))
         want = len(set(dk.comp_key(c.mat, c.rho) for c in cells)) + 1
-        if t4.ncompo_declared != want or len(t4.compositions) != want:
+        groups = []
+        for c in cells:
+            for g in groups:
+                if g[0].mat == c.mat and _same_class(g[0].rho, c.rho):
+                    g.append(c)
+                    break
+            else:
+                groups.append([c])
+        want_max = len(groups) + 1
+        if t4.ncompo_declared != len(t4.compositions) or not want <= len(t4.compositions) <= want_max:
             pb.append('%s compositions declared, %d written, %d distinct (material, density) pairs + void' %
                       (t4.ncompo_declared, len(t4.compositions), want))
         return pb
